@@ -73,6 +73,13 @@ def handle (toks : List String) : String :=
         | some r => ok (encRes r)
         | none => ok [.atom "REJECT"]
       | _, _, _, _ => err "bad-arg"
+    | [.atom "strict", c, s, e, g] =>
+      match decCfg c, s.byteNats?, e.bool?, decZ g with
+      | some cfg, some st, some eof, some Z =>
+        match Spec.strictReadAll cfg Z st eof with
+        | some r => ok (encRes r)
+        | none => ok [.atom "REJECT"]
+      | _, _, _, _ => err "bad-arg"
     | [.atom "raw", c, s, e] =>
       match decCfg c, s.list? >>= (·.mapM V.byteNats?), e.bool? with
       | some cfg, some segs, some eof => ok [V.ofOpt V.ofByteNats (rawGzBody cfg segs eof)]
